@@ -13,16 +13,3 @@ Check Props.C12.C12_termination_unparks :
 Check Props.C12.C12_queue_bound :
   forall tr s a x n, run init tr = Acc s -> actors s a = Some x -> m_bound (a_mb x) = Some n ->
     length (m_queue (a_mb x)) <= n + length (m_parked (a_mb x)) /\ sub (powners (a_mb x)) (qids (a_mb x)).
-
-From Hannibal Require Chk.C03 Props.C03.
-Check Props.C03.C03_lifecycle : forall tr, accepts tr = true -> Chk.C03.chk_C03 tr = true.
-
-From Hannibal Require Chk.C14 Props.C14.
-Check Props.C14.C14_truth : forall tr, accepts tr = true -> Chk.C14.chk_C14 tr = true.
-
-From Hannibal Require Chk.C13 Props.C13.
-Check Props.C13.C13_items_in_order_never_abandoned : forall tr, accepts tr = true -> Chk.C13.chk_C13 tr = true.
-Check Props.C13.C13_end_protocol : forall tr, accepts tr = true -> Chk.C03.chk_C03 tr = true.
-
-From Hannibal Require Chk.C11 Props.C11.
-Check Props.C11.C11_abandon_only_past_limit : forall tr, accepts tr = true -> Chk.C11.chk_C11 tr = true.
